@@ -407,7 +407,14 @@ func (cr *caseRun) setup() error {
 				cr.mu.Unlock()
 				cr.run.Count("inprogress_download_cancelled_by_"+info.Name, 1)
 			}
-			if pre.Present && pre.Complete && pre.Waiters > 0 && (!post.Present || post.Ref != pre.Ref) {
+			// The torrent may become complete between the snapshot and the event's own
+			// Complete() test (the last piece lands concurrently); completeness never
+			// reverts, so ask the removed dispatcher itself.
+			wasComplete := pre.Complete
+			if d, ok := pre.Ref.(*dispatch.Dispatcher); ok && d != nil && !wasComplete {
+				wasComplete = d.Complete()
+			}
+			if pre.Present && wasComplete && pre.Waiters > 0 && (!post.Present || post.Ref != pre.Ref) {
 				cr.mu.Lock()
 				if _, seen := cr.droppers[i]; !seen {
 					cr.droppers[i] = info.Name
